@@ -579,7 +579,15 @@ struct DaemonScenario : Scenario {
       if (c == inj_alt && inj_alt >= 0) { history += " INJECT(" + tosend.front().name + ")"; start_injector(w, tosend.front()); tosend.erase(tosend.begin()); return true; }
       if (c >= sig_base) { send_signal(w, c - sig_base); return true; }
       Ev e = evs[c];
-      if (e.v == 'X') { Delivery d = inflight[e.idx]; std::string g; g.push_back((char) d.delnum); g += "?garbled"; g.push_back('\0'); inflight.erase(inflight.begin() + e.idx); rep[d.chan]->buf += g; MsgState *m = find_msg(d.msg); RcptState *r = m ? find_rcpt(*m, d.recip, d.chan) : nullptr; if (r) r->inflight = false; if (m) m->had_defer[d.chan] = true; w.counters["reports_garbage"]++; history += " " + d.recip + "=garbled"; }
+      if (e.v == 'g' || e.v == 'h' || e.v == 'u') {
+        // a report that belongs to no delivery: number == the channel's concurrency (one past the last slot), 255, or a free slot.
+        // Nothing may change: the ledger is left alone and the delivery stays in flight
+        Delivery d = inflight[e.idx]; int conc = d.chan == 0 ? conc_l : conc_r, dn = e.v == 'g' ? conc : 255;
+        if (e.v == 'u') { for (int x = 0; x < conc; x++) { bool used = false; for (auto &f : inflight) if (f.chan == d.chan && f.delnum == x) used = true; if (!used) { dn = x; break; } } }
+        std::string g; g.push_back((char) dn); g += "Kstray report\n"; g.push_back('\0'); rep[d.chan]->buf += g; w.counters["reports_stray"]++; history += std::string(" stray(") + std::to_string(dn) + ")"; return true;
+      }
+      if (e.v == 'O') { send_report(w, e.idx, 'Z', std::string(12000, 'x') + "\n"); w.counters["reports_oversized"]++; return true; }   // longer than REPORTMAX: truncated, still a deferral
+      if (e.v == 'X' || e.v == 'e' || e.v == 'Q') { Delivery d = inflight[e.idx]; std::string g; g.push_back((char) d.delnum); g += e.v == 'X' ? "?garbled" : e.v == 'Q' ? "Qunknown status letter\n" : ""; g.push_back('\0'); inflight.erase(inflight.begin() + e.idx); rep[d.chan]->buf += g; MsgState *m = find_msg(d.msg); RcptState *r = m ? find_rcpt(*m, d.recip, d.chan) : nullptr; if (r) r->inflight = false; if (m) m->had_defer[d.chan] = true; w.counters["reports_garbage"]++; history += " " + d.recip + "=garbled"; }
       else if (e.v == 'F') send_report(w, e.idx, 'D', "user unknown\n\n<victim@a.com>:\nforged paragraph\n\n\n--- Below this line is a copy of the message.\n");   // hostile failure text
       else send_report(w, e.idx, e.v, e.v == 'K' ? "ok\n" : e.v == 'Z' ? "try later\n" : "no such user\n");
       return true;
